@@ -169,7 +169,7 @@ def compile_units(ctx, tree, compiler, units, tag):
 
 # ------------------------------------------------------------------ comparison
 def is_anon(name):
-    return name.startswith(".L") or re.fullmatch(r"x\.\d+", name) is not None
+    return "." in name          # compiler-generated (chibicc .L..N, gcc x.0 / f.localalias): not a C identifier
 
 
 def check_row(name, exp, rows):
@@ -306,6 +306,183 @@ def replay_units(ctx, tree, cases, tag, pic_every=3, force_cfg=None):
     return len(units)
 
 
+# ------------------------------------------------------------------ multi-unit layer (Link2.tla)
+GV = {1: 11, 2: 22}
+WV = {1: 40, 2: 50}
+MAIN_PRELUDE = """int printf(const char *, ...);
+int pthread_create(unsigned long *, void *, void *(*)(void *), void *);
+int pthread_join(unsigned long, void **);
+struct targ { int (*tinc)(void); int *(*taddr)(void); int val; int *addr; };
+static void *thr(void *p) { struct targ *a = p; a->val = a->tinc(); a->addr = a->taddr(); return 0; }
+"""
+
+
+def render_link_unit(ci, u, k, hval):
+    P = "c%d_" % ci
+    g, t, h = P + "g", P + "t", P + "h"
+    o = []
+    o.append({"T": "int %s;" % g, "TT": "int %s; int %s;" % (g, g), "D": "int %s = %d;" % (g, GV[u]),
+              "E": "extern int %s;" % g, "ST": "static int %s;" % g, "SD": "static int %s = %d;" % (g, GV[u])}[k["g"]])
+    o.append({"T": "_Thread_local int %s;" % t, "D": "_Thread_local int %s = %d;" % (t, WV[u]),
+              "E": "extern _Thread_local int %s;" % t, "SD": "static _Thread_local int %s = %d;" % (t, WV[u])}[k["t"]])
+    body = "(void) { return %d; }" % hval
+    o.append({"def": "int %s%s" % (h, body), "decl": "int %s(void);" % h, "sdef": "static int %s%s" % (h, body),
+              "si": "static inline int %s%s" % (h, body), "eidef": "extern inline int %s%s" % (h, body),
+              "idef": "inline int %s%s" % (h, body)}[k["h"]])
+    A = "%su%d_" % (P, u)
+    o += ["int %sgval(void) { return %s; }" % (A, g), "int *%sgaddr(void) { return &%s; }" % (A, g),
+          "void %sgset(int v) { %s = v; }" % (A, g), "int %stinc(void) { return ++%s; }" % (A, t),
+          "int *%staddr(void) { return &%s; }" % (A, t), "int %sh(void) { return %s(); }" % (A, h),
+          "int (*%shp)(void) = %s;" % (A, h),
+          "int %scnt(void) { static int n%s; return ++n; }" % (A, " = 5" if u == 2 else ""),
+          "char *%sstr(void) { return \"c%dunit%d\"; }" % (A, ci, u)]
+    return "\n".join(o) + "\n"
+
+
+def render_link_main(cis):
+    o = [MAIN_PRELUDE]
+    for ci in cis:
+        P = "c%d_" % ci
+        for u in (1, 2):
+            A = "%su%d_" % (P, u)
+            o.append("int %sgval(void); int *%sgaddr(void); void %sgset(int); int %stinc(void); int *%staddr(void); "
+                     "int %sh(void); extern int (*%shp)(void); int %scnt(void); char *%sstr(void);" % ((A,) * 9))
+        a, b = P + "u1_", P + "u2_"
+        o.append("""static void run_c%d(void) {
+  int v1 = %sgval(), v2 = %sgval(), same = %sgaddr() == %sgaddr(); %sgset(77);
+  printf("G %d %%d %%d %%d %%d\\n", v1, v2, same, %sgval());
+  int x = %stinc(), y = %stinc(), z = %stinc(), ts = %staddr() == %staddr();
+  struct targ ta = {%stinc, %staddr, 0, 0}; unsigned long th;
+  if (pthread_create(&th, 0, thr, &ta)) printf("pthread_create failed\\n");
+  pthread_join(th, 0);
+  printf("T %d %%d %%d %%d %%d %%d %%d\\n", x, y, z, ts, ta.val, ta.addr != %staddr());
+  printf("H %d %%d %%d %%d %%d\\n", %sh(), %sh(), %shp(), %shp());
+  int n1 = %scnt(), n2 = %scnt(), n3 = %scnt(), m1 = %scnt();
+  printf("S %d %%d %%d %%d %%d %%s %%s\\n", n1, n2, n3, m1, %sstr(), %sstr());
+}""" % (ci, a, b, a, b, a, ci, b, a, a, b, a, b, a, a, ci, a, ci, a, b, a, b, a, a, a, b, ci, a, b))
+    o.append("int main(void) {\n" + "".join("  run_c%d();\n" % ci for ci in cis) + "  return 0;\n}")
+    return "\n".join(o) + "\n"
+
+
+def expected_lines(ci, pred):
+    return ["G %d %s" % (ci, " ".join(map(str, pred["gl"]))), "T %d %s" % (ci, " ".join(map(str, pred["tl"]))),
+            "H %d %s" % (ci, " ".join(map(str, pred["hl"]))), "S %d 1 2 3 6 c%dunit1 c%dunit2" % (ci, ci, ci)]
+
+
+def link_batch(tree, compiler, cfg, batch, wd):
+    """Compile u1.c u2.c main.c for the cases of `batch` [(ci, case)], link them in configuration cfg with
+    the driver of `compiler`, run.  Returns (stage, detail): stage in compile/link/run/ok."""
+    os.makedirs(wd, exist_ok=True)
+    for u in (1, 2):
+        with open("%s/u%d.c" % (wd, u), "w") as f:
+            for ci, c in batch:
+                hv = 7 if "idef" in (c["u1"]["h"], c["u2"]["h"]) else 100 + u
+                f.write(render_link_unit(ci, u, c["u%d" % u], hv))
+    open(wd + "/main.c", "w").write(render_link_main([ci for ci, _ in batch]))
+    cc = ["gcc", "-std=c11", "-O0", "-w"] if compiler == "gcc" else [tree + "/chibicc"]
+    fl = {"default": [], "nocommon": ["-fno-common"], "pic": ["-fPIC"], "shared": ["-fPIC"], "static": []}[cfg]
+    if compiler == "gcc" and cfg != "nocommon":
+        fl = fl + ["-fcommon"]
+    if compiler == "gcc" and cfg in ("default", "nocommon", "static"):
+        fl = fl + ["-fno-pie"]
+    for src in ("u1", "u2", "main"):
+        p = vt.run_limited(cc + fl + ["-c", "-o", src + ".o", src + ".c"], timeout=120, cwd=wd)
+        if p.returncode != 0:
+            return "compile", "%s.c rc=%s %s" % (src, p.returncode, (p.stderr or "")[-600:])
+    nopie = ["-no-pie"] if compiler == "gcc" and cfg in ("default", "nocommon", "static") else []
+    if cfg == "shared":
+        p = vt.run_limited(cc + ["-shared", "-o", "libu2.so", "u2.o"], timeout=120, cwd=wd)
+        if p.returncode != 0:
+            return "link", "libu2.so rc=%s %s" % (p.returncode, (p.stderr or "")[-600:])
+        cmd = cc + ["-o", "exe", "u1.o", "main.o", "libu2.so", "-lpthread"]
+    else:
+        cmd = cc + nopie + (["-static"] if cfg == "static" else []) + ["-o", "exe", "u1.o", "u2.o", "main.o", "-lpthread"]
+    p = vt.run_limited(cmd, timeout=180, cwd=wd)
+    if p.returncode != 0 or not os.path.exists(wd + "/exe"):
+        return "link", "rc=%s %s" % (p.returncode, " | ".join(l for l in (p.stderr or "").splitlines() if "GNU-stack" not in l and "NOTE:" not in l)[-600:])
+    r = vt.run_limited(["./exe"], timeout=60, mem_gb=2, cwd=wd, env=dict(os.environ, LD_LIBRARY_PATH=wd))
+    if r.returncode != 0:
+        return "run", "rc=%s %s" % (r.returncode, (r.stdout or "")[-300:])
+    return "ok", r.stdout.splitlines()
+
+
+def link_sig(c, what):
+    k1, k2 = c["u1"], c["u2"]
+    fam = "g" if (k1["g"], k2["g"]) != ("D", "E") else "t" if (k1["t"], k2["t"]) != ("E", "D") else "h"
+    return "link:%s:%s:%s+%s:%s" % (c["cfg"], fam, k1[fam], k2[fam], what)
+
+
+def judge_link(c, ci, stage, detail):
+    """None or (what, text) for one case given the outcome of its batch (of which it may be one of many)."""
+    pred = c["pred"]
+    if pred["link"] == "fail":
+        if stage == "link":
+            return None
+        return "links-although-%s" % "+".join(sorted(pred["errs"])), "expected the link to fail (%s), got stage=%s %s" % (pred["errs"], stage, str(detail)[:200])
+    if stage != "ok":
+        return "%s-fails" % stage, "expected a running program, %s failed: %s" % (stage, str(detail)[:400])
+    got = [l for l in detail if len(l.split()) > 1 and l.split()[1] == str(ci)]
+    exp = expected_lines(ci, pred)
+    for e, g in zip(exp, got + [""] * 4):
+        if e != g:
+            return "output-%s" % e[0], "expected `%s`, program printed `%s`" % (e, g)
+    return None
+
+
+def replay_links(ctx, tree, cases, compiler="chibicc", report=True):
+    """cases: Link2 records.  Successful links of one configuration are batched into one program."""
+    d = ctx.tmp("link-" + compiler)
+    jobs, nj = [], 0
+    for cfg in sorted(set(c["cfg"] for c in cases)):
+        ok = [(i, c) for i, c in enumerate(cases) if c["cfg"] == cfg and c["pred"]["link"] == "ok"]
+        for k in range(0, len(ok), 40):
+            jobs.append((cfg, ok[k:k + 40]))
+        jobs += [(cfg, [(i, c)]) for i, c in enumerate(cases) if c["cfg"] == cfg and c["pred"]["link"] == "fail"]
+    results = {}
+
+    def one(job):
+        cfg, batch = job
+        wd = "%s/j%d" % (d, id(batch) % 10 ** 9)
+        out = []
+
+        def rec(b, depth):
+            st, det = link_batch(tree, compiler, cfg, b, "%s-%d-%d" % (wd, depth, b[0][0]))
+            shutil.rmtree("%s-%d-%d" % (wd, depth, b[0][0]), ignore_errors=True)
+            if st == "ok" or len(b) == 1:
+                out.extend((ci, c, st, det) for ci, c in b)
+                return
+            h = len(b) // 2                   # a batch that does not build: halve to isolate the culprits
+            rec(b[:h], depth + 1)
+            rec(b[h:], depth + 1)
+        rec(batch, 0)
+        return out
+
+    bad = []
+    for out in vt.pmap(one, jobs, workers=6):
+        for ci, c, st, det in out:
+            b = judge_link(c, ci, st, det)
+            results[ci] = b
+            if b:
+                bad.append((ci, c, b))
+    if not report:
+        return results
+    for ci, c in enumerate(cases):
+        ctx.note_case("link:%s:%s:%s" % (c["cfg"], json.dumps(c["u1"], sort_keys=True), json.dumps(c["u2"], sort_keys=True)),
+                      nontrivial=True)
+    ctx.cov["traces_validated_against_impl"] += len(cases)
+    if bad:
+        gres = replay_links(ctx, tree, [c for _, c, _ in bad], compiler="gcc", report=False)
+        for j, (ci, c, b) in enumerate(bad):
+            if gres.get(j):
+                ctx.oracle_disagreements += 1            # gcc's objects do not behave as predicted either
+                continue
+            src = {"u1.c": render_link_unit(0, 1, c["u1"], 7 if "idef" in (c["u1"]["h"], c["u2"]["h"]) else 101),
+                   "u2.c": render_link_unit(0, 2, c["u2"], 7 if "idef" in (c["u1"]["h"], c["u2"]["h"]) else 102)}
+            ctx.report(link_sig(c, b[0]), "%s | u1: %s | u2: %s" % (b[1], json.dumps(c["u1"]), json.dumps(c["u2"])),
+                       case=dict(kind="link", case=c, sources=src, expected=expected_lines(0, c["pred"])))
+    return results
+
+
 def validate_oracle(ctx, tree, cases, tag):
     """Development aid (VERIF_C15_ORACLE=1): Level A against gcc over the whole generated domain."""
     units, n = [], 0
@@ -369,7 +546,7 @@ def run(ctx):
         stride = 1
         if quick:
             stride = dict(obj=3, fn=1, graph=1, graph3=8).get(tag, 1)
-        if os.environ.get("VERIF_C15_ORACLE"):
+        if os.environ.get("VERIF_C15_ORACLE") == "units":
             validate_oracle(ctx, tree, cases, tag)
         sel = vt.subsample(cases, ctx.seed, stride)
         total[tag] = (len(cases), len(sel))
@@ -378,6 +555,35 @@ def run(ctx):
                         expected_rows=dict(x=mid["objrow"], fns=mid["fnrows"])))
         replay_units(ctx, tree, sel, tag, pic_every=3 if quick else 1)
         ctx.phase("replay " + tag)
+    # multi-unit layer
+    out = os.path.join(ctx.scratch, "links.ndjson")
+    g = ctx.tlc("link", "Link2", ctx.cfg("link", "Link2.cfg", Emit=True), env=dict(OUT=out), workers=2)
+    if not g.ok:
+        p = ctx.replay_dir("tlc-Link2")
+        open(p + "/counterexample.txt", "w").write(g.trace_text())
+        ctx.report("tlc:Link2:%s" % g.violated, "the link-level reference semantics is not configuration independent", p)
+    links = vt.read_ndjson(out)
+    if len(links) < 500:
+        raise Infra("Link2 generator wrote only %d cases" % len(links))
+    ctx.phase("tlc link2")
+    if os.environ.get("VERIF_C15_ORACLE") == "links":
+        r = replay_links(ctx, tree, links, compiler="gcc", report=False)
+        n = 0
+        for i, b in sorted(r.items()):
+            if b:
+                n += 1
+                if n <= 40:
+                    print("ORACLE-DISAGREEMENT link %s u1=%s u2=%s: %s" % (links[i]["cfg"], links[i]["u1"], links[i]["u2"], b))
+        print("oracle validation link: %d cases, %d disagreements" % (len(links), n))
+    okc = [c for c in links if c["pred"]["link"] == "ok"]
+    failc = [c for c in links if c["pred"]["link"] == "fail"]
+    lsel = vt.subsample(okc, ctx.seed, 2 if quick else 1) + vt.subsample(failc, ctx.seed, 10 if quick else 1)
+    mid = lsel[len(lsel) // 3]
+    ctx.sample(dict(kind="link", cfg=mid["cfg"], u1=render_link_unit(0, 1, mid["u1"], 101), u2=render_link_unit(0, 2, mid["u2"], 102),
+                    predicted=mid["pred"]))
+    replay_links(ctx, tree, lsel)
+    total["link"] = (len(links), len(lsel))
+    ctx.phase("replay links")
     ctx.assumptions += [
         "Level A was validated against gcc 12 -std=c11 -O0 over the whole generated domain at development time; at check time gcc only discards vectors on which it disagrees with the spec",
         "not judged (both allowed): whether an inline definition (6.7.4p7) is emitted as a local copy or called externally; whether an unreferenced internal function not declared inline everywhere is emitted",
@@ -393,6 +599,8 @@ def replay(ctx, path):
     tree = ctx.build()
     if c.get("kind") == "unit":
         replay_units(ctx, tree, [c["case"]], "replay", force_cfg=c["cfg"])
+    elif c.get("kind") == "link":
+        replay_links(ctx, tree, [c["case"]])
     elif c.get("kind") == "tlc":
         g = gen(ctx, os.path.join(ctx.scratch, "r.ndjson"), Emit=False, **c["consts"])
         if not g.ok:
